@@ -3,7 +3,9 @@
    M = m_run (pugjs/types.go + the call path of tpl_exec.go, after the repairs F-C20-a,b,d,e,f),
    S = js_run (JavaScript on plain lists in a JS heap).  js_run answers None outside the range
    the property speaks about and reports, as flags, the calls on which the code is listed as
-   deviating (F-C20-c value of push/sort, F-C20-g null in sort / null needle, unstable long sort). *)
+   deviating (F-C20-c value of push/sort, F-C20-g null in sort / null needle, unstable long sort).
+   Programs are flat: SCall / SAlias / SPrintVar and SPass (a value handed over to a mixin parameter,
+   loop variable, holder member, or back from the holder); C20_refine_partial covers them all. *)
 From Coq Require Import ZArith List.
 From PV Require Import Base.Bytes Models.ArrayOps Proofs.ArrayOpsProofs.
 Import ListNotations.
@@ -46,6 +48,34 @@ Theorem C20_alias : forall (st : mstate) (x y : nat) md f args,
   m_step st (SCall md x f args) = m_step st (SCall md y f args).
 Proof. exact alias_same. Qed.
 Print Assumptions C20_alias.
+
+(* every other way a template makes a second name for an array - a mixin parameter bound from the
+   argument list, the loop variable of an each over an array of arrays, a member of an object or
+   an element of an array holding it, the result of a method that hands it back - binds the new name
+   to the same location: no array is created or changed, the old name keeps its binding ... *)
+Theorem C20_pass_shares : forall (st : mstate) (x y l : nat),
+  env_get y (m_env st) = Some (Arr l) ->
+  exists st', m_step st (SPass x (AVar y)) = MOk (st', []) /\
+    env_get x (m_env st') = Some (Arr l) /\ env_get y (m_env st') = Some (Arr l) /\
+    m_heap st' = m_heap st.
+Proof. exact pass_shares. Qed.
+Print Assumptions C20_pass_shares.
+
+(* ... and from then on, for ALL programs that re-bind neither name, it makes no difference through
+   which of the two names any receiver, argument, assignment source or printed variable is written:
+   the two programs write the same text and end in the same state (for the code ...) *)
+Theorem C20_names_interchangeable : forall (x y : nat) (p p' : prog) (st : mstate),
+  env_get x (m_env st) = env_get y (m_env st) ->
+  Forall2 (swapped x y) p p' -> m_run p st = m_run p' st.
+Proof. exact names_interchangeable. Qed.
+Print Assumptions C20_names_interchangeable.
+
+(* (... and for JavaScript: the specification demands exactly this) *)
+Theorem C20_names_interchangeable_js : forall (x y : nat) (p p' : prog) (st : jstate),
+  env_get x (j_env st) = env_get y (j_env st) ->
+  Forall2 (swapped x y) p p' -> js_run p st = js_run p' st.
+Proof. exact names_interchangeable_js. Qed.
+Print Assumptions C20_names_interchangeable_js.
 
 (* splice / slice results live at a location that did not exist before ... *)
 Theorem C20_fresh : forall h l items f n h' r,
